@@ -1,5 +1,6 @@
 use crate::runner::Monitor;
 
+pub mod c01;
 pub mod c10;
 pub mod c12;
 pub mod c13;
@@ -12,6 +13,7 @@ pub mod c20;
 
 pub fn by_id(id: &str) -> Option<Box<dyn Monitor>> {
     Some(match id {
+        "C01" => Box::new(c01::C01),
         "C10" => Box::new(c10::C10::new()),
         "C12" => Box::new(c12::C12),
         "C13" => Box::new(c13::C13),
